@@ -335,3 +335,23 @@ Proof.
   apply (legalize_terminates pts fuel fully d stack b Wf (faces_ccw_edges pts d Wf FC) Rng M).
 Qed.
 Print Assumptions legalize_terminates_wf.
+
+(* totality + the constraint invariant in one statement (CDT legalization): with enough fuel the model returns, and what it returns
+   has the same flags and has moved no constraint edge *)
+Corollary legalize_total_respects_constraints : forall pts fuel fully d stack b,
+  DWf d -> FacesCcw (obs_of_dcel d) pts -> (forall e, In e stack -> e < length (d_hedges d)) ->
+  (Z.of_nat (length stack) + 2 * dcel_pot pts d < Z.of_nat fuel)%Z ->
+  exists d' b', legalize pts fuel fully d stack b = Some (d', b') /\
+    d_flags d' = d_flags d /\
+    (forall k, k < Raw.num_undirected_edges d -> nth k (d_flags d) false = true ->
+       e_origin d' (2 * k) = e_origin d (2 * k) /\ e_origin d' (2 * k + 1) = e_origin d (2 * k + 1)) /\
+    (0 <= dcel_pot pts d' <= dcel_pot pts d)%Z.
+Proof.
+  intros pts fuel fully d stack b Wf FC Rng M.
+  destruct (legalize_terminates_wf pts fuel fully d stack b Wf FC Rng M) as [[d' b'] Run].
+  exists d', b'. split; [exact Run|].
+  destruct (legalize_never_flips_constraints pts fuel fully d stack b d' b' Wf FC Rng Run) as [Hf Ho].
+  split; [exact Hf|]. split; [exact Ho|].
+  exact (legalize_pot_monotone_wf pts fuel fully d stack b d' b' Wf FC Rng Run).
+Qed.
+Print Assumptions legalize_total_respects_constraints.
